@@ -24,14 +24,14 @@ func runExtra(spec string, cfg *PropConfig, tier string, w *World) *FuncReport {
 		if len(parts) != 4 {
 			return &FuncReport{Label: spec, Err: fmt.Errorf("bad extra spec %q", spec)}
 		}
-		return runBounded(parts[1], parts[2], parts[3])
+		return runBounded(parts[1], parts[2], parts[3], tier)
 	case "layout":
 		return runLayout(cfg, w)
 	}
 	return &FuncReport{Label: spec, Err: fmt.Errorf("unknown extra engine %q", spec)}
 }
 
-func runBounded(name, pkgRel, test string) *FuncReport {
+func runBounded(name, pkgRel, test, tier string) *FuncReport {
 	rep := &FuncReport{Label: "bounded:" + name + " (" + pkgRel + "." + test + ")", Name: test, PkgPath: modPath + "/" + pkgRel}
 	tmp, err := os.MkdirTemp("", "govc-bounded-")
 	if err != nil {
@@ -44,9 +44,9 @@ func runBounded(name, pkgRel, test string) *FuncReport {
 	b, _ := json.Marshal(ov)
 	ovf := filepath.Join(tmp, "ov.json")
 	os.WriteFile(ovf, b, 0o644)
-	cmd := exec.Command("go", "test", "-overlay", ovf, "-vet=off", "-count=1", "-timeout", "600s", "-run", "^"+test+"$", "-v", "./"+pkgRel)
+	cmd := exec.Command("go", "test", "-overlay", ovf, "-vet=off", "-count=1", "-timeout", "3000s", "-run", "^"+test+"$", "-v", "./"+pkgRel)
 	cmd.Dir = repoDir
-	cmd.Env = append(os.Environ(), "GOFLAGS=-mod=mod")
+	cmd.Env = append(os.Environ(), "GOFLAGS=-mod=mod", "VERIF_TIER="+tier)
 	t0 := time.Now()
 	out, runErr := cmd.CombinedOutput()
 	txt := string(out)
